@@ -1,4 +1,5 @@
 CONSTANTS MaxCand = 12
 SPECIFICATION MCSpec
 INVARIANT TypeOK
+ACTION_CONSTRAINT Emit
 CHECK_DEADLOCK FALSE
